@@ -151,9 +151,9 @@ Emitted == Done => PrintT(ToJson([prog |-> prog, n |-> N, pairs |-> pairs, built
 (***************************************************************************)
 (* Alphabets used by the model-checking and export configurations.         *)
 (***************************************************************************)
-AlphaC01 == {Map("inc"), Map("tag"), Map("var"), Filter("even"), Filter("none"),
+AlphaC01 == {Map("inc"), Map("tag"), Map("var"), Map("varattr"), Filter("even"), Filter("none"),
              Slice(1, 3, 1), Slice(0, None, 2), LagK(1), LastK(2), Count, RunIf("even", "inc"),
-             Reverse, End, Sum, Last, SplitSt(<<Map("inc"), Sum>>, 2),
+             Reverse, End, Sum, Last, SplitSt(<<Map("inc"), Sum>>, 2), SplitSt(<<SeqSum("dbl"), Filter("even")>>, 2),
              Bad("int"), Bad("str"), Bad("obj"), Bad("runnone")}
 \* callables that yield None, followed by elements that count, drop, delay or store values
 AlphaNul == {Map("nul"), Map("inc"), Filter("even"), Slice(1, 3, 1), LagK(1), LastK(2), Count,
